@@ -399,7 +399,8 @@ def confront(ctx, fs, label, share_ref=True):
             n_float_vs_exact += int((eF != fl).sum()) + int((sF != ce).sum())
         for kind, c, bad in checks:
             if bad.any():
-                for (fi, gi) in np.argwhere(bad):
+                ctx.count(f"{label}_failing_triples", int(bad.sum()))
+                for (fi, gi) in np.argwhere(bad)[:40]:  # a sample; the total is counted above
                     failing.append((float(part[fi]), int(gaps[gi]), c, kind))
     ctx.nontrivial.extra += n_nontrivial
     ctx.count(f"{label}_factors", len(fs))
@@ -437,7 +438,6 @@ def report_failing(ctx, failing, label):
     the table oracle"""
     if not failing:
         return
-    ctx.count(f"{label}_failing_triples", len(failing))
     ctx.extra.setdefault("failing_triples_sample", [])
     ctx.extra["failing_triples_sample"] += [list(x) for x in failing[:10]]
     seen = {}
@@ -537,7 +537,7 @@ def run(ctx):
     core_fs = fs8 if not ctx.quick else sorted(rng.sample(fs8, 3) + [0.5])
     cases = list(exhaustive_small_tables(core_fs))
     run_tables(ctx, cases, exact=True, origin="exhaustive_small", style_rng=rng)
-    n_rand = ctx.pick(450, 14000)
+    n_rand = ctx.pick(300, 4500)
     cases = [random_table(rng, dyadic_factor(rng), big=(i % 25 == 0)) for i in range(n_rand)]
     for j in range(0, len(cases), 500):
         run_tables(ctx, cases[j:j + 500], exact=True, origin="random_exact", style_rng=rng)
